@@ -4,3 +4,14 @@ From ArgMapper.proofs Require Import C141517VS.
 Theorem C17 : C17_statement.
 Proof. exact C17_proof. Qed.
 Print Assumptions C17.
+
+(* On the resolver model, over histories: the raw outputs of every successful
+   Call are what the target's body returned -- in this operation or, for a
+   memoized run-once target, in an earlier one; in particular a successful
+   call has executed its target at some point of the history.  (The same
+   predicate, Monitors2.c17_monitor, is evaluated on the implementation.) *)
+From ArgMapper Require Import HistoryStatements HistoryStatements2.
+From ArgMapper.proofs Require C0417Hist.
+Theorem C17_history : C17_history_statement.
+Proof. exact C0417Hist.C17_history_proof. Qed.
+Print Assumptions C17_history.
